@@ -1,6 +1,8 @@
 package main
 
 import (
+	"fmt"
+	"strconv"
 	"go/types"
 	"regexp"
 	"sort"
@@ -128,6 +130,9 @@ func checkC06(c *Check) {
 	}
 	c.Floor("R3", 3)
 
+	// ---- R6 escrow payment id <-> lease id: writer and reader agree position by position
+	c.escrowIDCodec("R6")
+
 	// ---- R4 id provenance in handlers
 	c.idProvenance()
 	c.serialBaseRule("R4")
@@ -248,6 +253,31 @@ func (c *Check) idProvenance() {
 							continue
 						}
 						s := Sym(a)
+						if strings.Contains(s, "next(range(make:map[") {
+							// an element of a map the handler filled itself: it is what was put in
+							okMap, nput := true, 0
+							for _, g2 := range fnAndClosures(fn) {
+								eachInstr(g2, func(i ssa.Instruction) {
+									mu, isMU := i.(*ssa.MapUpdate)
+									if !isMU {
+										return
+									}
+									// the handler's own map of that type (a closure sees it as a captured variable)
+									ms := "make:" + types.TypeString(mu.Map.Type(), shortQual)
+									if strings.Contains(s, "next(range("+ms+"))#1") {
+										nput++
+										okMap = okMap && derivesFromMsg(Sym(mu.Key), paramName(fn.Params[2]))
+									}
+									if strings.Contains(s, "next(range("+ms+"))#2") {
+										nput++
+										okMap = okMap && derivesFromMsg(Sym(mu.Value), paramName(fn.Params[2]))
+									}
+								})
+							}
+							if okMap && nput > 0 {
+								continue
+							}
+						}
 						if !derivesFromMsg(s, paramName(fn.Params[2])) {
 							bad += calleeMethod(call) + "(" + short(s) + "); "
 							pos = call.Pos()
@@ -365,6 +395,18 @@ func (c *Check) keyLayoutsRule(rule string, rels []string, minScoped, minKind in
 					pv = call.Common().Args[1]
 				case strings.HasSuffix(full, "store/prefix.NewStore"):
 					pv = call.Common().Args[1]
+				case (calleeMethod(call) == "Iterator" || calleeMethod(call) == "ReverseIterator") && strings.Contains(full, "KVStore") && len(call.Common().Args) == 2:
+					// a range iterator: the whole store (nil, nil), or a scope whose end bound is the prefix end of its start
+					a := call.Common().Args
+					if isNilConst(a[0]) && isNilConst(a[1]) {
+						continue
+					}
+					bounded := Sym(a[1]) == "types.PrefixEndBytes("+Sym(a[0])+")"
+					c.Ob(rule, rel+": range iterator in "+fnName(fn)+" is bounded by the prefix end of its start key", call.Pos(), bounded, "the scan starts at "+short(Sym(a[0]))+" and ends at "+short(Sym(a[1]))+": it runs on into the records of other owners / other kinds")
+					if !bounded {
+						continue
+					}
+					pv = a[0]
 				default:
 					continue
 				}
@@ -456,4 +498,112 @@ func (c *Check) keyLayoutsRule(rule string, rels []string, minScoped, minKind in
 	if !undecided && (nscoped < minScoped || nkind < minKind) {
 		c.Fail("%s key-layout rule lost instances: scoped=%d kind=%d", rule, nscoped, nkind)
 	}
+}
+
+// escrowIDCodec: the escrow hook finds the lease a closed payment belongs to by parsing the payment id the market
+// module wrote when it created the payment. Writer (EscrowPaymentForLease: a Sprintf of lease id fields separated by
+// "/") and reader (LeaseIDFromEscrowAccount: strings.Split(pid, "/") fed into the id constructors) must put every
+// field at the same position; a swapped pair makes the hook close some other lease of the same deployment.
+func (c *Check) escrowIDCodec(rule string) {
+	l := c.L
+	w := l.Func("x/market/types", "", "EscrowPaymentForLease")
+	r := l.Func("x/market/types", "", "LeaseIDFromEscrowAccount")
+	c.Analysed(fnName(w))
+	c.Analysed(fnName(r))
+	// writer: position -> field
+	wpos := map[int]string{}
+	for _, call := range callsInOwn(w) {
+		if calleeFull(call) != "fmt.Sprintf" {
+			continue
+		}
+		args := call.Common().Args
+		f, ok := strConst(args[0])
+		if !ok {
+			continue
+		}
+		verbs := strings.Split(f, "/")
+		s := Sym(args[1])
+		if !strings.HasPrefix(s, "[") || !strings.HasSuffix(s, "]") {
+			continue
+		}
+		elems := strings.Split(s[1:len(s)-1], ", ")
+		if len(elems) != len(verbs) {
+			continue
+		}
+		for i, e := range elems {
+			if strings.HasPrefix(e, "p:"+paramName(w.Params[0])+".") && strings.Count(verbs[i], "%") == 1 {
+				wpos[i] = lastField(e)
+			}
+		}
+	}
+	// reader: field -> position, from the constructor chain of the returned id
+	rpos := map[string]int{}
+	partIdx := regexp.MustCompile(`strings\.Split\(p:` + paramName(r.Params[1]) + `, "/"\)\[(\d+)\]`)
+	fieldSetBy := func(g *ssa.Function, k int) string {
+		name := ""
+		eachInstr(g, func(i ssa.Instruction) {
+			st, ok := i.(*ssa.Store)
+			if !ok {
+				return
+			}
+			fa, ok := st.Addr.(*ssa.FieldAddr)
+			if !ok {
+				return
+			}
+			v := Sym(st.Val)
+			pn := "p:" + paramName(g.Params[k])
+			if v == pn || strings.HasSuffix(v, "("+pn+")") {
+				_, name = structFieldOf(fa)
+			}
+		})
+		return name
+	}
+	nret := 0
+	for _, ret := range successReturns2(r) {
+		nret++
+		v := ret.Results[0]
+		for d := 0; d < 8; d++ {
+			call, ok := stripConv(v).(*ssa.Call)
+			if !ok {
+				break
+			}
+			g := call.Call.StaticCallee()
+			if g == nil || g.Blocks == nil || !strings.Contains(fnPkgPath(g), "/x/") {
+				break
+			}
+			a := call.Call.Args
+			if len(a) == 2 && len(g.Params) == 2 {
+				if f := fieldSetBy(g, 1); f != "" {
+					if m := partIdx.FindStringSubmatch(Sym(a[1])); m != nil {
+						k, _ := strconv.Atoi(m[1])
+						rpos[f] = k
+					}
+				}
+			}
+			if len(a) == 0 {
+				break
+			}
+			v = a[0]
+		}
+	}
+	if len(wpos) < 3 || len(rpos) < 3 || nret == 0 {
+		c.Info(rule, "escrow payment id codec: writer/reader form not recognised, agreement not decided", r.Pos(), fmt.Sprintf("writer positions %v, reader positions %v", wpos, rpos))
+		return
+	}
+	for i := 0; i < len(wpos); i++ {
+		f := wpos[i]
+		k, ok := rpos[f]
+		c.Ob(rule, "payment id part "+strconv.Itoa(i)+" ("+f+") is read back into "+f, r.Pos(), ok && k == i, fmt.Sprintf("the writer puts %s at position %d, the reader takes %s from position %d: the hook resolves a payment to another lease", f, i, f, k))
+	}
+}
+
+// successReturns2: returns of a (value, bool) function whose bool result is not the constant false.
+func successReturns2(fn *ssa.Function) []*ssa.Return {
+	var out []*ssa.Return
+	for _, b := range fn.Blocks {
+		if ret, ok := b.Instrs[len(b.Instrs)-1].(*ssa.Return); ok && len(ret.Results) == 2 && !isConstBool(ret.Results[1], false) {
+			out = append(out, ret)
+		}
+	}
+	return out
 }
